@@ -22,6 +22,13 @@ pub const LIBRARY: &[&str] = &[
     "r3k3/2K5/8/8/8/8/8/8 b q -",
     "r3k2r/1b4bq/8/8/8/8/7B/R3K2R w KQkq -",
     "r3k2r/8/3Q4/8/8/5q2/8/R3K2R b KQkq -",
+    // corner pieces facing rooks that still carry a right (corner-to-corner captures, king takes rook)
+    "r3k2r/8/8/8/8/8/8/B3K2B w kq -",
+    "b3k2b/8/8/8/8/8/8/R3K2R b KQ -",
+    "r3k2r/8/8/8/8/8/8/Q3K2Q w kq -",
+    "r3k2r/6K1/8/8/8/8/8/8 w kq -",
+    "8/8/8/8/8/8/1k6/R3K2R b KQ -",
+    "r3k2r/p6p/8/8/8/8/P6P/R3K2R w KQkq -",
     // en passant
     "4k3/8/8/8/1p1p1p1p/8/P1P1P1P1/4K3 w - -",
     "4k3/p1p1p1p1/8/1P1P1P1P/8/8/8/4K3 b - -",
